@@ -601,9 +601,11 @@ theorem gen_twig_dispatch :
 /-- `_prune_twigs_precise`: a node is in range when its **farthest** distal tip is within `size`
 (`cutoff=size`, `max`), rows go when their **parent** is in range, the remainder is `size - max_len`, a
 tip is dropped when its edge is **shorter** (`<`) than the remainder, otherwise moved from its own
-position towards the parent — the ingredients of `exactPrune`. -/
+position towards the parent — the ingredients of `exactPrune`; with a mask the distances are measured on the
+subgraph of masked nodes (`allBelowMasked` in `exactPruneM`). -/
 theorem gen_exact_rule :
     Gen.Prune.exactCutoff = "size" ∧ Gen.Prune.exactWeight = "weight" ∧ Gen.Prune.exactReversed = true
+    ∧ Gen.Prune.exactMaskSubgraph = true
     ∧ Gen.Prune.exactKeepColumn = "parent_id" ∧ Gen.Prune.exactAggregate = "max"
     ∧ Gen.Prune.exactRemainderOp = "Sub" ∧ Gen.Prune.exactRemainderLeft = "size" ∧ Gen.Prune.exactRemainderUsesMaxLen = true
     ∧ Cmp.ofName Gen.Prune.exactRemoveCmp = some .lt ∧ Gen.Prune.exactRemoveRhs = "len_to_prune"
@@ -671,12 +673,13 @@ theorem gen_depth_is_model (t : Table) (len : Int → Int → Nat) (src : Option
 
 /-- `longest_neurite`: `n < 1` raises, segments are weighted by cable, an int takes `segments[:n]`, a slice
 `segments[n]`, `inverse` keeps the complement; `from_root=False` takes the maximum distance among root
-and end nodes with unreachable pairs set to `-1` and reroots there; defaults. -/
+and end nodes (rows and columns of the matrix in the same order) with unreachable pairs set to `-1` and
+reroots there; defaults. -/
 theorem gen_longest_rule :
     Cmp.ofName Gen.Prune.lnBadCmp = some .lt ∧ Gen.Prune.lnBadK = 1 ∧ Gen.Prune.lnSegWeight = "weight"
     ∧ Gen.Prune.lnPicks = [":n:", "n"] ∧ Gen.Prune.lnInverseIsComplement = true ∧ Gen.Prune.lnInverseGuard = true
     ∧ Gen.Prune.lnEndTypes = ["end", "root"] ∧ Gen.Prune.lnUnreachable = -1 ∧ Gen.Prune.lnUsesMax = true
-    ∧ Gen.Prune.lnRerootTargets = ["start", "x.soma"]
+    ∧ Gen.Prune.lnRerootTargets = ["start", "x.soma"] ∧ Gen.Prune.lnDistIndex = ["loc", "leafs", "leafs"]
     ∧ Gen.Prune.lnRerootGuard = ["not isinstance(x.soma, type(None))", "reroot_soma"]
     ∧ (∀ d ∈ [("n", "1"), ("reroot_soma", "False"), ("from_root", "True"), ("inverse", "False"), ("inplace", "False")],
         d ∈ Gen.Prune.lnDefaults) := by decide
@@ -695,15 +698,14 @@ theorem gen_decorators :
         "meshneuron_skeleton" ∈ ds) := by decide
 
 /-- **The `TreeNeuron.prune_*` methods call the functions** with `inplace=True` on `self` or a copy, and
-forward every parameter they accept — except `TreeNeuron.prune_twigs`, which may drop `recursive` (open
-finding `TreeNeuron.prune_twigs/recursive-not-forwarded`; the statement tolerates exactly that gap, so it
-keeps checking when the method is repaired). -/
+forward every parameter they accept (including `recursive` of `TreeNeuron.prune_twigs`, which used to be
+dropped — repaired defect `TreeNeuron.prune_twigs/recursive-not-forwarded`). -/
 theorem gen_methods_forward :
     Gen.Prune.methods.map (fun m => (m.1, m.2.1)) =
       [("prune_by_strahler", "prune_by_strahler"), ("prune_twigs", "prune_twigs"), ("prune_at_depth", "prune_at_depth"),
        ("prune_by_longest_neurite", "longest_neurite"), ("cell_body_fiber", "cell_body_fiber"), ("prune_by_volume", "in_volume")]
     ∧ (∀ m ∈ Gen.Prune.methods, "inplace=True" ∈ m.2.2.2.2)
-    ∧ (∀ m ∈ Gen.Prune.methods, ∀ p ∈ m.2.2.1, p ∈ m.2.2.2.1 ∨ (m.1 = "prune_twigs" ∧ p = "recursive"))
+    ∧ (∀ m ∈ Gen.Prune.methods, ∀ p ∈ m.2.2.1, p ∈ m.2.2.2.1)
     ∧ (∀ m ∈ Gen.Prune.methods, m.1 = "prune_by_strahler" → "reroot_soma=True" ∈ m.2.2.2.2) := by decide
 
 /-! ## 2. `recursive` -/
